@@ -49,6 +49,13 @@ Theorem C01_wire_prefix_free : forall p q r1 r2, wf p = true -> wf q = true ->
 Proof. exact wire_prefix_free. Qed.
 Print Assumptions C01_wire_prefix_free.
 
+(* a truncated encoding (cut anywhere, split anyhow) never yields a packet *)
+Theorem C01_unmarshal_truncated : forall p s u,
+  wf p = true -> no_empty s -> concat s ++ u = wire p -> u <> [] ->
+  forall q s', unmarshal s <> Ok (q, s').
+Proof. exact unmarshal_truncated. Qed.
+Print Assumptions C01_unmarshal_truncated.
+
 (* ---- the nested stream form ------------------------------------------------------------------ *)
 (* from a Chunk (the container of a batched packet) *)
 Theorem C01_unmarshal_stream_marshal_stream : forall p rest,
